@@ -522,4 +522,63 @@ theorem freeSeq_free_down (used : List Nat) : ∀ (fuel s : Nat),
       simp only [hc, Bool.false_eq_true, if_false]
       simpa using hc
 
+theorem freeSeq_ge (used : List Nat) : ∀ (fuel s : Nat), s ≤ freeSeq used true fuel s := by
+  intro fuel
+  induction fuel with
+  | zero => intro s; simp [freeSeq]
+  | succ n ih =>
+    intro s
+    unfold freeSeq
+    split
+    · simp only [if_true]; exact Nat.le_trans (Nat.le_succ s) (ih (s + 1))
+    · exact Nat.le_refl _
+
+/-- The entry of `b` behind a call has a static peer (`set peer …`). -/
+def StaticCall (bl : List Cmd) (c : Call) : Prop :=
+  ∃ s, c.bSeq = some s ∧ startsWith (peerD (grp bl s)) "peer " = true
+
+theorem freshStep_static (al bl : List Cmd) (acc : List Call × Nat × Nat) (s : Nat) :
+    ∃ c : Call, (freshStep al bl acc s).1 = acc.1 ++ [c] ∧ c.bSeq = some s ∧
+      acc.2.1 ≤ (freshStep al bl acc s).2.1 ∧
+      (startsWith (peerD (grp bl s)) "peer " = true →
+        ∀ d ∈ c.bl, acc.2.1 ≤ d.seq ∧ d.seq < (freshStep al bl acc s).2.1) := by
+  unfold freshStep
+  by_cases hs : startsWith (peerD (grp bl s)) "peer " = true
+  · simp only [hs, if_true]
+    refine ⟨_, rfl, rfl, Nat.le_trans (freeSeq_ge (seqsOf al) 70000 acc.2.1) (Nat.le_succ _), fun _ d hd => ?_⟩
+    simp only [List.mem_map] at hd
+    obtain ⟨e, _, rfl⟩ := hd
+    cases al.head? <;> exact ⟨freeSeq_ge _ _ _, Nat.lt_succ_self _⟩
+  · have hs' : startsWith (peerD (grp bl s)) "peer " = false := by simpa using hs
+    simp only [hs', Bool.false_eq_true, if_false]
+    exact ⟨_, rfl, rfl, Nat.le_refl _, fun h => by cases h⟩
+
+theorem freshFold_static (al bl : List Cmd) : ∀ (l : List Nat) (acc : List Call × Nat × Nat),
+    ∃ cs : List Call, (l.foldl (freshStep al bl) acc).1 = acc.1 ++ cs ∧
+      cs.map (·.bSeq) = l.map some ∧
+      acc.2.1 ≤ (l.foldl (freshStep al bl) acc).2.1 ∧
+      (∀ c ∈ cs, StaticCall bl c → ∀ d ∈ c.bl, acc.2.1 ≤ d.seq) ∧
+      cs.Pairwise (fun c1 c2 => StaticCall bl c1 → StaticCall bl c2 →
+        ∀ d1 ∈ c1.bl, ∀ d2 ∈ c2.bl, d1.seq < d2.seq) := by
+  intro l
+  induction l with
+  | nil => intro acc; exact ⟨[], by simp, rfl, Nat.le_refl _, (fun _ h => by cases h), List.Pairwise.nil⟩
+  | cons s ss ih =>
+    intro acc
+    simp only [List.foldl_cons]
+    obtain ⟨c, h1, h2, h3, h4⟩ := freshStep_static al bl acc s
+    obtain ⟨cs, i1, i2, i3, i4, i5⟩ := ih (freshStep al bl acc s)
+    refine ⟨c :: cs, by rw [i1, h1]; simp, by simp [h2, i2], Nat.le_trans h3 i3, fun x hx hst d hd => ?_, ?_⟩
+    · rcases List.mem_cons.mp hx with rfl | hx'
+      · obtain ⟨s', hs1, hs2⟩ := hst
+        have : s' = s := by rw [h2] at hs1; exact (Option.some.inj hs1).symm
+        subst this
+        exact (h4 hs2 d hd).1
+      · exact Nat.le_trans h3 (i4 x hx' hst d hd)
+    · refine List.pairwise_cons.mpr ⟨fun c2 hc2 hst1 hst2 d1 hd1 d2 hd2 => ?_, i5⟩
+      obtain ⟨s', hs1, hs2⟩ := hst1
+      have : s' = s := by rw [h2] at hs1; exact (Option.some.inj hs1).symm
+      subst this
+      exact Nat.lt_of_lt_of_le (h4 hs2 d1 hd1).2 (i4 c2 hc2 hst2 d2 hd2)
+
 end NA.C18.G
